@@ -254,3 +254,47 @@ rewrite E; apply: model_gram_inverse => //.
 exact: (feats_ok_all Hok).
 Qed.
 End AgentLevel.
+
+(* ---- the whole tail of get_action: choose the arm, then update with THAT arm's feature ---- *)
+From AgileV Require Import C19.ChoiceProofs.
+
+Section Decide.
+Variable F : realFieldType.
+Variable n : nat.
+
+(* action = masked argmax of the action values; v = g[action]; sigma_inv -= ... *)
+Definition decide (S : seq (seq F)) (arms : seq (seq F)) (vals : seq F) (legal : seq bool) : nat * seq (seq F) :=
+  let a := masked_argmax (fun x y : F => x < y) vals legal in
+  (a, sm_step 0 1 +%R (@fsub F) *%R (@fdiv F) S (nth [::] arms a)).
+
+Lemma ltF_trans (a b c : F) : (a < b) = true -> (b < c) = true -> (a < c) = true.
+Proof. exact: lt_trans. Qed.
+Lemma ltF_irrefl (a : F) : (a < a) = false.
+Proof. exact: ltxx. Qed.
+Lemma ltF_negtrans (a b c : F) : (a < c) = true -> (a < b) = true \/ (b < c) = true.
+Proof. by move=> ac; case: (ltP a b) => [|ba]; [left | right; exact: le_lt_trans ba ac]. Qed.
+
+(* for every matrix that is the inverse of A, every list of per-arm features of the right size, every vector of action values and
+   every mask with at least one legal arm: the arm returned is legal, no legal arm has a strictly larger value, earlier legal arms
+   are strictly smaller, and the new matrix is the inverse of A + g_a g_a^T for the feature g_a of the RETURNED arm *)
+Theorem decide_spec (A : 'M[F]_n) (S : seq (seq F)) (arms : seq (seq F)) (vals : seq F) (legal : seq bool) :
+  wf n S -> A *m mx_of n S = 1%:M -> (forall x, 0 <= qform (mx_of n S) x) ->
+  all (fun g => size g == n) arms -> size arms = size vals -> List.length vals = List.length legal ->
+  (exists j, (j < List.length vals)%coq_nat /\ List.nth j legal false = true) ->
+  let a := (decide S arms vals legal).1 in
+  let g := cv_of n (nth [::] arms a) in
+  [/\ (a < size vals)%N, List.nth a legal false = true,
+      forall j, (j < List.length vals)%coq_nat -> List.nth j legal false = true -> (List.nth a vals 0 < List.nth j vals 0) = false
+    & (A + g *m g^T) *m mx_of n (decide S arms vals legal).2 = 1%:M].
+Proof.
+move=> wS AS psd szs sav slen ex a g.
+have [H1 [H2 [H3 _]]] := @masked_argmax_spec_lemma F (fun x y : F => x < y) ltF_trans ltF_irrefl ltF_negtrans 0 vals legal slen ex.
+have alt : (a < size vals)%N by rewrite -lengthE; apply/ssrnat.ltP; exact: H1.
+split=> //.
+have sg : size (nth [::] arms a) = n.
+  by apply/eqP; apply: (allP szs); apply: mem_nth; rewrite sav.
+rewrite /decide /= (sm_step_refines wS sg).
+apply: sherman_morrison => //.
+by rewrite gt_eqF // ltr_paddr ?ltr01 ?psd.
+Qed.
+End Decide.
